@@ -680,8 +680,11 @@ def class_specs(draw, field_types: st.SearchStrategy[t.Any], *, max_fields: int 
     if kwm is not None:
         # the marker sits in front of the kwm-th *drawn* field; inserted init=False fields shift its index
         cs['kw_marker'] = next(j for (j, f) in enumerate(fields) if f['name'] == names[kwm])
-    if hooks and [f for f in fields if f.get('init', True)] and draw(st.integers(0, 5)) == 5:
-        fs = draw(st.sampled_from([f for f in fields if f.get('init', True)]))
+    # (the hook compares a field with a fixed value: only fields whose values do not involve generated classes, whose
+    #  instances are equal only within one class object, so that a structurally equal fresh class behaves the same)
+    hookable = [f for f in fields if f.get('init', True) and not any(n.kind in ('dataclass', 'tagged') for n in node(f['type']).walk())]
+    if hooks and hookable and draw(st.integers(0, 5)) == 5:
+        fs = draw(st.sampled_from(hookable))
         cs['post'] = ['reject', fs['name'], draw(node(fs['type']).valid())]
     return ('cls', cs)
 
